@@ -10,20 +10,21 @@ from _util import at, ok, Fail, check, call
 from windpyutils.structures.lists import DoublyLinkedList
 
 GROW = ("append", "prepend", "extend", "pre_extend")     # extend / pre_extend add two elements
+OPS = list(GROW) + ["pop_back", "pop_front", "rotate(True)", "rotate(False)", "remove(i)", "move_to_front(i)",
+                    "move_to_back(i)", "move_after(i,j)"]
+PAYLOADS = ["equal (distinct objects comparing equal): all lengths", "distinct: all but the longest length"]
 BOUNDS = {
-    "quick": {"history_len": 5, "max_nodes": 4, "initial_sizes": [0, 3], "initial_history_len": {"0": 5, "3": 4},
-              "ops": list(GROW) + ["pop_back", "pop_front", "rotate(True)", "rotate(False)", "remove(i)",
-                                   "move_to_front(i)", "move_to_back(i)", "move_after(i,j)"],
-              "payloads": ["equal (distinct objects comparing equal): all lengths", "distinct: all but the longest"],
-              "long_runs": {"n": 3000, "payload": "all equal", "ops": 14},
+    "quick": {"families": [{"initial_size": 0, "history_len": 5, "max_nodes": 4}, {"initial_size": 3, "history_len": 4, "max_nodes": 4}],
+              "ops": OPS, "payloads": PAYLOADS, "long_runs": {"n": [3000], "payload": "all equal", "single_ops": 17, "combined": 1},
               "random": {"count": 2000, "len": "10..60", "max_nodes": 12, "payloads": "equal/distinct/two-valued"}},
-    "thorough": {"history_len": 6, "max_nodes": 4, "initial_sizes": [0, 3, 4], "initial_history_len": {"0": 6, "3": 5, "4": 4},
-                 "ops": "as quick", "payloads": ["equal: all lengths", "distinct: all but the longest"],
-                 "long_runs": {"n": [3000, 20000], "payload": "all equal", "ops": 14},
+    "thorough": {"families": [{"initial_size": 0, "history_len": 6, "max_nodes": 3}, {"initial_size": 0, "history_len": 5, "max_nodes": 5},
+                              {"initial_size": 2, "history_len": 5, "max_nodes": 4}, {"initial_size": 3, "history_len": 4, "max_nodes": 5},
+                              {"initial_size": 4, "history_len": 4, "max_nodes": 4}],
+                 "ops": OPS, "payloads": PAYLOADS, "long_runs": {"n": [3000, 20000], "payload": "all equal", "single_ops": 17, "combined": 1},
                  "random": {"count": 40000, "len": "10..80", "max_nodes": 12, "payloads": "equal/distinct/two-valued"}},
 }
 RULE = ("All operation sequences up to the stated length, shortest first, starting from DoublyLinkedList(data) with "
-        "the stated initial sizes; node arguments range over ALL positions of the current list (move_after over all "
+        "the stated initial size (one family per (initial size, length, max_nodes)); node arguments range over ALL positions of the current list (move_after over all "
         "ordered pairs incl. node is after); growth beyond max_nodes is not enumerated; pops on the empty list must "
         "raise IndexError; every history is run with all-equal payloads (fresh objects comparing equal) and, except for the longest length, with all-distinct payloads. Long runs: one "
         "operation on a list of n equal payloads (structural equality / recursion depth). Then a seeded random "
@@ -80,14 +81,13 @@ LONG_OPS = [["mafter", 2500, 2400], ["mafter", 2400, 2500], ["mafter", 0, -1], [
 
 def cases(tier, seed):
     b = BOUNDS[tier]
-    for n0 in b["initial_sizes"]:
-        full = b["initial_history_len"][str(n0)]
-        for ops in _histories(n0, full, b["max_nodes"]):
+    for fam in b["families"]:
+        n0, full = fam["initial_size"], fam["history_len"]
+        for ops in _histories(n0, full, fam["max_nodes"]):
             yield {"kind": "history", "init": n0, "payloads": "equal", "ops": ops}
             if len(ops) < full:
                 yield {"kind": "history", "init": n0, "payloads": "distinct", "ops": ops}
-    ns = b["long_runs"]["n"]
-    for n in (ns if isinstance(ns, list) else [ns]):
+    for n in b["long_runs"]["n"]:
         for op in LONG_OPS:
             yield {"kind": "long-run", "init": n, "payloads": "equal", "ops": [op]}
         yield {"kind": "long-run", "init": n, "payloads": "equal", "ops": [list(o) for o in LONG_OPS]}
